@@ -210,6 +210,13 @@ def judge(rec, nested, script, monotone=True):
         out["C02"].append(("scripted:borehole-cap-exceeded", f"{rec['kind']}: {count} boreholes with cap {cap}"))
     if esc and not flag:
         out["C02"].append(("scripted:escape-taken-although-flag-off", f"{rec['kind']} cap {cap}"))
+    if not flag:
+        # C02 policy, stated direction: without the continue flag a design may only come back if some allowed candidate meets the limits
+        any_allowed_feasible = any(script.table[k] <= 0 for k in allowed)
+        if not any_allowed_feasible:
+            out["C02"].append(("scripted:design-returned-although-no-allowed-candidate-meets-the-limits", f"{rec['kind']} cap {cap}: returned {count} bh at {H:.2f} m, flag off, no candidate with count <= cap is feasible at max height"))
+        if abs(H - HMIN) <= 1e-9 and count == smallest and script.excess(key, HMIN) < -1e-3 and all(script.excess(k, HMIN) < 0 for k in cnt if cnt[k] == smallest):
+            out["C02"].append(("scripted:unmet-small-design-returned-although-flag-off", f"{rec['kind']} cap {cap}: smallest field at minimum height is over-satisfied ({script.excess(key, HMIN):.3g} K) and was returned without the continue flag"))
     if not esc:
         # C01: a design returned without the escape is feasible at the returned height
         if e_final > 1e-3:
@@ -285,7 +292,7 @@ def run_batch(spec):
                     continue
                 # threshold between field t-1 and t: excess decreasing along the list
                 tab = {(0, i): float((t - i - 0.5) * 0.7 + 0.013 * (n - i)) for i in range(n)}
-                caps = [None] + sorted({c + d for c in counts for d in (0, 1)})[:: max(1, n // 6)]
+                caps = [None] + sorted(set(sorted({c + d for c in counts for d in (0, 1)})[:: max(1, n // 6)]) | {2, 3})
                 for cap in caps:
                     if cap is not None and cap <= counts[0]:
                         continue
